@@ -209,7 +209,13 @@ fn gen_oracle(g: &Gen, items: &[Obs]) -> Result<(), String> {
                     }
                 }
                 if want != nums {
-                    return Err(format!("range({a}, {b}, {s}) should be {want:?}, got {nums:?}"));
+                    return Err(format!(
+                        "range({a}, {b}, {s}) should be {} elements {:?}.., got {} elements {:?}..",
+                        want.len(),
+                        &want[..want.len().min(12)],
+                        nums.len(),
+                        &nums[..nums.len().min(12)]
+                    ));
                 }
             } else {
                 let q = (b - a) / s;
